@@ -36,6 +36,7 @@ for p in $prop $extra; do
   echo "$out" | grep -E "VIOLATION|UNDECIDED" | head -5; echo "$out" | tail -1
   [ $rc -eq 1 ] && caught="$caught $p"
 done
+git -C /verif checkout -- evidence 2>/dev/null  # evidence files are rewritten by every run: restore the clean-tree ones
 git -C /repo checkout -- . ; git -C /repo status --short | grep -v '^??' | head
 mkdir -p /verif/seeded/$id; cp "$src/patch.diff" "$src/zz_seed_demo_test.go" /verif/seeded/$id/; cp "$src/notes.md" /verif/seeded/$id/notes.md 2>/dev/null
 python3 - <<PY
